@@ -155,25 +155,131 @@ theorem kw_subset_of_binds (S : Sig α) (c : Call α) (hv : hasVarKw S = false)
   obtain ⟨p, hp, ha, rfl⟩ := this
   exact List.mem_map.mpr ⟨p, List.mem_filter.mpr ⟨hp, ha⟩, rfl⟩
 
-/-! ### subsets -/
+/-! ### binding as a conjunction of per-keyword and per-parameter conditions -/
 
-theorem filter_mem_subsets (f : α → Bool) (l : List α) : l.filter f ∈ subsets l := by
-  induction l with
-  | nil => simp [subsets]
-  | cons x xs ih =>
-    simp only [subsets, List.mem_append, List.mem_map]
-    by_cases hx : f x = true
-    · right; exact ⟨xs.filter f, ih, by simp [List.filter, hx]⟩
-    · left; simpa [List.filter, hx] using ih
+theorem checkPos_split (ps : List (Param α)) (kw : List α) :
+    ∀ n, checkPos ps n kw =
+      ((ps.take n).all (fun p => !hitBy p kw) && (ps.drop n).all (fun p => p.hasDefault || hitBy p kw)) := by
+  induction ps with
+  | nil => intro n; simp [checkPos]
+  | cons p ps ih =>
+    intro n
+    cases n with
+    | zero =>
+      simp only [checkPos, List.take_zero, List.drop_zero, List.all_nil, Bool.true_and, List.all_cons]
+      rw [ih 0]; simp
+    | succ n =>
+      simp only [checkPos, List.take_succ_cons, List.drop_succ_cons, List.all_cons]
+      rw [ih n, Bool.and_assoc]
 
-theorem sublist_of_mem_subsets (l s : List α) (h : s ∈ subsets l) : s.Sublist l := by
-  induction l generalizing s with
-  | nil => simp [subsets] at h; subst h; exact List.Sublist.refl _
-  | cons x xs ih =>
-    simp only [subsets, List.mem_append, List.mem_map] at h
-    rcases h with h | ⟨t, ht, rfl⟩
-    · exact (ih s h).cons x
-    · exact (ih t ht).cons_cons x
+/-- Clause-by-clause reading of `binds`. -/
+theorem binds_iff (S : Sig α) (n : Nat) (kw : List α) :
+    binds S ⟨n, kw⟩ = true ↔
+      (n ≤ (posParams S).length ∨ hasVarPos S = true) ∧
+      (∀ k ∈ kw, kwTarget S k = true ∨ hasVarKw S = true) ∧
+      (∀ p ∈ (posParams S).take n, hitBy p kw = false) ∧
+      (∀ p ∈ (posParams S).drop n, p.hasDefault = true ∨ hitBy p kw = true) ∧
+      (∀ p ∈ S, p.kind.isKwOnly = true → p.hasDefault = true ∨ p.name ∈ kw) := by
+  simp only [binds, checkPos_split, kwAccepted, checkKwOnly, Bool.and_eq_true, Bool.or_eq_true,
+    decide_eq_true_eq, List.all_eq_true, Bool.not_eq_true', Bool.not_eq_eq_eq_not, Bool.not_true]
+  constructor
+  · rintro ⟨⟨⟨h1, h2⟩, h3, h4⟩, h5⟩
+    refine ⟨h1, h2, h3, h4, ?_⟩
+    intro p hp hk
+    rcases h5 p hp with (h | h) | h
+    · rw [hk] at h; exact absurd h (by simp)
+    · exact Or.inl h
+    · exact Or.inr h
+  · rintro ⟨h1, h2, h3, h4, h5⟩
+    refine ⟨⟨⟨h1, h2⟩, h3, h4⟩, ?_⟩
+    intro p hp
+    by_cases hk : p.kind.isKwOnly = true
+    · rcases h5 p hp hk with h | h
+      · exact Or.inl (Or.inr h)
+      · exact Or.inr h
+    · exact Or.inl (Or.inl (by simpa using hk))
+
+theorem hitBy_mono (p : Param α) (kw kw' : List α) (hsub : ∀ k ∈ kw, k ∈ kw')
+    (h : hitBy p kw = true) : hitBy p kw' = true := by
+  simp only [hitBy, Bool.and_eq_true, decide_eq_true_eq] at *
+  exact ⟨h.1, hsub _ h.2⟩
+
+theorem hitBy_name (p : Param α) (kw : List α) (h : hitBy p kw = true) :
+    p.kind.isPosOrKw = true ∧ p.name ∈ kw := by
+  simpa [hitBy] using h
+
+/-- Every name the signature forces is present in an accepted call. -/
+theorem req_subset_of_binds (S : Sig α) (n : Nat) (kw : List α) (h : binds S ⟨n, kw⟩ = true) :
+    ∀ k ∈ reqNames S n, k ∈ kw := by
+  obtain ⟨_, _, _, h4, h5⟩ := (binds_iff S n kw).mp h
+  intro k hk
+  simp only [reqNames, List.mem_append, List.mem_map, List.mem_filter, Bool.and_eq_true,
+    Bool.not_eq_true', Bool.not_eq_eq_eq_not, Bool.not_true] at hk
+  rcases hk with ⟨p, ⟨hp, hd⟩, rfl⟩ | ⟨p, ⟨hp, hko, hd⟩, rfl⟩
+  · rcases h4 p hp with h | h
+    · rw [hd] at h; exact absurd h (by simp)
+    · exact (hitBy_name p kw h).2
+  · rcases h5 p hp hko with h | h
+    · rw [hd] at h; exact absurd h (by simp)
+    · exact h
+
+/-- **Shrinking.** An accepted call stays accepted when keywords are dropped, as long as the
+    forced names stay. -/
+theorem binds_shrink (S : Sig α) (n : Nat) (kw kw' : List α) (h : binds S ⟨n, kw⟩ = true)
+    (hsub : ∀ k ∈ kw', k ∈ kw) (hreq : ∀ k ∈ reqNames S n, k ∈ kw') :
+    binds S ⟨n, kw'⟩ = true := by
+  obtain ⟨h1, h2, h3, h4, h5⟩ := (binds_iff S n kw).mp h
+  refine (binds_iff S n kw').mpr ⟨h1, fun k hk => h2 k (hsub k hk), ?_, ?_, ?_⟩
+  · intro p hp
+    have := h3 p hp
+    cases hh : hitBy p kw' with
+    | false => rfl
+    | true => rw [hitBy_mono p kw' kw hsub hh] at this; exact absurd this (by simp)
+  · intro p hp
+    cases hd : p.hasDefault with
+    | true => exact Or.inl rfl
+    | false =>
+      right
+      rcases h4 p hp with h | h
+      · rw [hd] at h; exact absurd h (by simp)
+      · have hn := hitBy_name p kw h
+        have : p.name ∈ kw' := hreq _ (by
+          simp only [reqNames, List.mem_append, List.mem_map, List.mem_filter]
+          exact Or.inl ⟨p, ⟨hp, by simp [hd]⟩, rfl⟩)
+        simp [hitBy, hn.1, this]
+  · intro p hp hko
+    cases hd : p.hasDefault with
+    | true => exact Or.inl rfl
+    | false =>
+      right
+      exact hreq _ (by
+        simp only [reqNames, List.mem_append, List.mem_map, List.mem_filter]
+        exact Or.inr ⟨p, ⟨hp, by simp [hko, hd]⟩, rfl⟩)
+
+/-- **Composition.** If the base call and the base call plus each single further keyword are
+    accepted, the call with all of them is accepted. -/
+theorem binds_compose (S : Sig α) (n : Nat) (b kw : List α) (hb : binds S ⟨n, b⟩ = true)
+    (hsub : ∀ k ∈ b, k ∈ kw) (hone : ∀ k ∈ kw, binds S ⟨n, k :: b⟩ = true) :
+    binds S ⟨n, kw⟩ = true := by
+  obtain ⟨h1, _, _, h4, h5⟩ := (binds_iff S n b).mp hb
+  refine (binds_iff S n kw).mpr ⟨h1, ?_, ?_, ?_, ?_⟩
+  · intro k hk
+    exact ((binds_iff S n (k :: b)).mp (hone k hk)).2.1 k (List.mem_cons_self ..)
+  · intro p hp
+    cases hh : hitBy p kw with
+    | false => rfl
+    | true =>
+      have hn := hitBy_name p kw hh
+      have := ((binds_iff S n (p.name :: b)).mp (hone _ hn.2)).2.2.1 p hp
+      simp [hitBy, hn.1] at this
+  · intro p hp
+    rcases h4 p hp with h | h
+    · exact Or.inl h
+    · exact Or.inr (hitBy_mono p b kw hsub h)
+  · intro p hp hko
+    rcases h5 p hp hko with h | h
+    · exact Or.inl h
+    · exact Or.inr (hsub _ h)
 
 /-! ### fresh names -/
 
